@@ -16,7 +16,7 @@ m = {
  "engines": [{"name": "govc", "path": "/verif/govc", "serves_properties": sorted(pm.keys()),
               "kind_free_text": "home-grown contract verifier for Go: go/ssa (naive form) + amd64 asm front ends, forward symbolic execution with alias partitions and loop invariants, verification conditions in QF_LIA / QF_(UF)BV / polynomial identities, discharged by a portfolio of z3 4.8.12, z3 5.1.0 and cvc5 1.0; counterexamples replayed on the real code with go test -overlay"}],
  "checks": [], "not_applicable": [],
- "notes": "Contracts live in /repo/field/contracts_verif.go and /repo/contracts_verif.go (comment-only, //go:build verif); byte-identical mirror in /verif/contracts is used when a tree lacks them; /repo/roundtrip_verif.go (verif tag only) holds the two compositions of Bytes/SetBytes that carry the round-trip contracts. Measured wall time on the 16-core sandbox, warm verdict cache: all 20 quick checks about 25 min in sequence (C01 about 10 min, C02/C05/C11/C12 about 2 min each, the rest under 1 min); thorough: C01 about 2 h 15 min, C11 and C12 about 50 min each, C08 10 min, C07 6 min, the others under 5 min. All 40 commands exit 0 on the unchanged tree. See DESIGN.md (STATUS section first)."
+ "notes": "Contracts live in /repo/field/contracts_verif.go and /repo/contracts_verif.go (comment-only, //go:build verif); byte-identical mirror in /verif/contracts is used when a tree lacks them; /repo/roundtrip_verif.go (verif tag only) holds the two compositions of Bytes/SetBytes that carry the round-trip contracts. Measured wall time on the 16-core sandbox: all 20 quick checks about 25 min in sequence with a warm verdict cache (/verif/.cache, not committed; C01 about 10 min, C02/C05/C11/C12 about 2 min each, the rest under 1 min) and about 35 min from an empty cache (C01 15 min); thorough: C01 about 2 h 15 min, C11 and C12 about 50 min each, C08 10 min, C07 6 min, the others under 5 min. All 40 commands exit 0 on the unchanged tree. See DESIGN.md (STATUS section first)."
 }
 for p in props:
     i = p['id']
